@@ -44,7 +44,10 @@ theorem splice_canon (c : Cond) (s e : Int) (h : c.canon = true) : (splice (some
       | bin o l r => cases o with
         | and => rfl
         | or => exact absurd rfl (hne l r)
-  simp [splice, Cond.canon, hw.1, hw.2, geTL, ltTL, Cond.notOr]
+  have hi : (Cond.bin .and (geTL s) (ltTL e)).canon = true ∧ (Cond.bin .and (geTL s) (ltTL e)).notOr = true := by
+    simp [Cond.canon, Cond.notOr, geTL, ltTL]
+  simp only [splice, Cond.canon, hw.1, hw.2, hi.2]
+  simp [geTL, ltTL, Cond.canon, Cond.notOr]
 
 theorem wrapUser_eval (c : Cond) (env : Env) : (wrapUser c).eval env = c.eval env := by
   unfold wrapUser; split <;> simp [Cond.eval]
@@ -270,17 +273,25 @@ theorem only_declared_dbrps (declared : List DBRP) (nodes : List (List DBRP)) :
     match startBatching declared nodes with
     | some issued => ∀ srcs ∈ issued, onlyDeclared declared srcs = true
     | none => ∃ srcs ∈ nodes, onlyDeclared declared srcs = false := by
-  unfold startBatching
-  split
-  · rename_i h
+  by_cases h : checkDBRPs declared nodes = true
+  · simp only [startBatching, h, ↓reduceIte]
     simp only [checkDBRPs, List.all_eq_true] at h
     intro srcs hs
     simp only [onlyDeclared, List.all_eq_true]
     exact h srcs hs
-  · rename_i h
-    simp only [checkDBRPs, List.all_eq_true, not_forall] at h
-    obtain ⟨srcs, hs, hn⟩ := h
-    exact ⟨srcs, hs, by simpa [onlyDeclared] using hn⟩
+  · simp only [startBatching, h, Bool.false_eq_true, ↓reduceIte]
+    simp only [checkDBRPs, List.all_eq_true] at h
+    apply Classical.byContradiction
+    intro hn
+    apply h
+    intro srcs hs d hd
+    apply Classical.byContradiction
+    intro hc
+    apply hn
+    refine ⟨srcs, hs, ?_⟩
+    simp only [onlyDeclared, Bool.eq_false_iff, ne_eq, List.all_eq_true]
+    intro hall
+    exact hc (hall d hd)
 
 /-! ### stated, not proved -/
 
@@ -299,9 +310,8 @@ def clone_never_adopts_user_literal_stmt : Prop :=
 
 /-! ### non-vacuity: the hypotheses are met by concrete, non-trivial instances -/
 
-example : ∃ c, parse [.lp, .atom (.opq 1), .op .or, .atom (.opq 2), .rp, .op .and, .atom (.opq 3), .op .or, .atom (.time .gt 5 false)] = some c ∧
-    c.canon = true ∧ userNoTL (some c) = true :=
-  ⟨_, by decide, by decide, by decide⟩
+example : (parse [.lp, .atom (.opq 1), .op .or, .atom (.opq 2), .rp, .op .and, .atom (.opq 3), .op .or, .atom (.time .gt 5 false)]).map
+    (fun c => c.canon && userNoTL (some c) && c.natoms == 4) = some true := by decide
 
 example : Reach (some (.atom (.opq 1))) (some (4, 0)) true
     ((newQuery (some (.atom (.opq 1))) (some (4, 0)) true).setRange (7, 17)) :=
